@@ -279,6 +279,27 @@ theorem rh_core (σ : ℝ) (hσ : σ = 1 ∨ σ = -1) {p ρ u γ px m : ℝ} (hp
     · field_simp; ring
     · field_simp; ring
 
+/-! ### isentrope -/
+
+/-- along the isentrope ρ = ρ₀ (p/p₀)^{1/γ} the sound speed is c₀ (p/p₀)^{(γ-1)/(2γ)} -/
+theorem sound_on_isentrope {px p ρ γ : ℝ} (hp : 0 < p) (hρ : 0 < ρ) (hγ : 1 < γ) (hpx : 0 < px) :
+    sound px (rhoRare px p ρ γ) γ = sound p ρ γ * (px / p) ^ ((γ - 1) / 2 / γ) := by
+  have hγ0 : 0 < γ := by linarith
+  have hz : 0 < px / p := by positivity
+  rw [sound_eq, sound_eq, rhoRare_eq]
+  have h1 : 0 < (px / p) ^ (1 / γ) := Real.rpow_pos_of_pos hz _
+  have h2 : 0 < (px / p) ^ ((γ - 1) / 2 / γ) := Real.rpow_pos_of_pos hz _
+  have key : (px / p) ^ ((γ - 1) / 2 / γ) * (px / p) ^ ((γ - 1) / 2 / γ) * (px / p) ^ (1 / γ) = px / p := by
+    rw [← Real.rpow_add hz, ← Real.rpow_add hz]
+    have : (γ - 1) / 2 / γ + (γ - 1) / 2 / γ + 1 / γ = 1 := by field_simp; ring
+    rw [this, Real.rpow_one]
+  generalize (px / p) ^ ((γ - 1) / 2 / γ) = A at *
+  generalize (px / p) ^ (1 / γ) = B at *
+  have hpx' : px = p * (A * A * B) := by rw [key]; field_simp
+  have e : γ * px / (ρ * B) = (γ * p / ρ) * (A * A) := by
+    rw [hpx']; field_simp
+  rw [e, Real.sqrt_mul (by positivity), Real.sqrt_mul_self h2.le]
+
 /-! ### the fan in closed form -/
 
 /-- the sign `rho_p_u_rarefaction` derives from its `==` side detection: +1 on the left state -/
